@@ -305,11 +305,13 @@ impl W {
                 let t = self.expr(i, locals);
                 match t {
                     Some(Ty::Int) => Some(Ty::Int),
+                    // the unary minus is an arithmetic operator: integers only; like for binary
+                    // operators the result type follows from the operator
                     Some(_) => {
-                        self.err(Rule::UnaryMinusNonInteger, first, self.pos);
-                        None
+                        self.err(Rule::ArithmeticOperatorNonInteger, first, self.pos);
+                        Some(Ty::Int)
                     }
-                    None => None,
+                    None => Some(Ty::Int),
                 }
             }
             RExpr::Bin(op, l, r) => {
